@@ -698,8 +698,12 @@ func (oa *ordAnalysis) confined(fn *ssa.Function, seen map[*ssa.Function]bool) (
 		for i := 0; i < 10; i++ {
 			r := rootOfAddr(v)
 			switch x := r.(type) {
-			case *ssa.Parameter, *ssa.Alloc, *ssa.MakeMap, *ssa.MakeSlice, *ssa.FreeVar:
+			case *ssa.Parameter, *ssa.Alloc, *ssa.MakeMap, *ssa.MakeSlice:
 				return true
+			case *ssa.FreeVar:
+				// a captured variable of the enclosing function: storing into the variable itself carries state
+				// from one visit of the unordered walk to the next (only a location reached *through* it is fine)
+				return i > 0
 			case *ssa.UnOp:
 				v = x.X
 				continue
